@@ -73,6 +73,15 @@ CHECKS = {
         note="Trusted: TLC, the generators (type-checked programs), the in-process driver. Third-package aliases with the declaring package imported directly.",
         technique="TLA+ models checked by TLC; replay of TLC-enumerated (use site x spelling) programs and their direct-spelling twins",
         design="5/C13"),
+    "C07": dict(
+        text="TLC checks that Classify (file / inline / declaration / statement / lone) + ComputeRange + the inclusive range test reproduce the "
+             "structural scope of the property for every comment slot of a fixed layout (18 slots incl. trailing a closing brace and a "
+             "single-line top-level declaration, end of block, other file), every anchor position class and every code list, incl. the moving "
+             "report of the once-per-file codes; each terminal state is concretised (12 program kinds) and analysed, the diagnostics of the "
+             "kind's code must equal the model's set; a sample through the real binary and go vet.",
+        note="Trusted: TLC, lib/gen_scope.py, the in-process driver. IMPL anchors are covered by C17.",
+        technique="TLA+ model (Scope.tla + Codes.tla) checked by TLC; replay of every (kind, slot, list) scenario into the real analyzers",
+        design="5/C07"),
 }
 
 NOT_YET = "check not built yet in this session; the property is in scope of the TLA+ specification (see DESIGN.md section 5) and will be claimed when its replay binding is in place"
